@@ -717,6 +717,31 @@ func exhaustiveCases(nmax, depth int, limit int, r *rand.Rand) []*mCase {
 
 // scripted histories for the defects found while building the model (see findings/C08.md, C09.md)
 func scriptedCases() []*mCase {
+	out := scriptedBase()
+	// DisableChild on a running child whose exit is still outstanding, then another child terminates (any of the
+	// running ones, abnormally) BEFORE the disabled child's exit reaches the supervisor, then the outstanding exits
+	// arrive in either order: the disabled spec still holds its pid while the group restart is decided
+	for _, kind := range []string{"afo", "rfo", "ofo"} {
+		for _, n := range []int{2, 3} {
+			for _, strat := range []int{0, 2} {
+				for _, keep := range []bool{false, true} {
+					for d := 0; d < n; d++ {
+						for a := 0; a < n; a++ {
+							for _, late := range []int{0, 1} {
+								c := &mCase{Kind: kind, Strategy: strat, Keep: keep, Intensity: 5, Period: 5, Sig: make([]bool, n), Stream: "scripted-disable-crash"}
+								c.Ops = []mOp{{K: "disable", A: d}, {K: "exit", A: a, R: 10}, {K: "exitsig", A: late}, {K: "exitsig", A: 0}, {K: "exitsig", A: 0}, {K: "exitsig", A: 0}}
+								out = append(out, c)
+							}
+						}
+					}
+				}
+			}
+		}
+	}
+	return out
+}
+
+func scriptedBase() []*mCase {
 	return []*mCase{
 		// C09: intensity exceeded while other children run -> terminate reason must be "exceeded"
 		{Kind: "ofo", Strategy: 2, Intensity: 1, Period: 5, Sig: []bool{false, false}, Stream: "scripted",
